@@ -45,8 +45,9 @@ meta = {
 if sid in ("S128", "S129", "S130", "S150"):
     meta["demo"]["run"] = meta["demo"]["run"].replace("go test ", "go test -tags purego ")
 if "/own/" in src:
-    meta["origin"] = "written in this session as a sensitivity test of a new world (see notes.md)"
-    meta["demo"]["run"] = "GOTOOLCHAIN=go1.26.8 " + meta["demo"]["run"] + " (testing/synctest)"
+    meta["origin"] = "written in this session as a sensitivity test of a new world or fault kind (see notes.md)"
+    if sid == "S156":
+        meta["demo"]["run"] = "GOTOOLCHAIN=go1.26.8 " + meta["demo"]["run"] + " (testing/synctest)"
 if sid == "S151":
     meta["demo"]["run"] = "GOAMD64=v3 " + meta["demo"]["run"] + " (needs a CPU with AVX2)"
 jp = os.path.join(os.path.dirname(os.path.abspath(__file__)), "seeded_judgements.json")
